@@ -44,23 +44,51 @@ def after_close_pass(ctx, binary, n):
         ctx.notes.append(f"{nm} correspondence mismatches in {tag} (oracle failures present)")
 
 
+def concurrent_pass(ctx, binary, tag, env):
+    """Oracle-only pass (no model stream: the interleaving is not deterministic).  A data race reported by
+    the race detector, a crash, or an oracle failure at a quiescent point is a concrete violation."""
+    ops, impl, rep = ctx.run_harness(binary, "TestVerifC17Conc", tag, env=env, timeout=900)
+    st = ctx.cov["stats"].setdefault(tag, {})
+    for k, v in (rep.get("stats") or {}).items():
+        st[k] = st.get(k, 0) + v
+    nrpc = sum(v for k, v in (rep.get("stats") or {}).items() if k.startswith("conc-"))
+    ctx.cov["evaluations"] += nrpc
+    ctx.cov["distinct_nontrivial"] += int(rep.get("distinct_nontrivial", 0))
+    fails = rep.get("oracle_failures") or []
+    ctx.cov["oracle_failures"] += len([f for f in fails if not ctx.is_known(f["sig"])])
+    seen = set()
+    for f in fails:
+        if f["sig"] not in seen:
+            seen.add(f["sig"])
+            ctx.add_violation({"kind": "oracle", "test": "TestVerifC17Conc", "seed": ctx.seed, "env": env,
+                               "failure": f, "all_failures": fails[:20]}, sig=f["sig"])
+    if rep.get("crashed"):
+        outp = rep.get("crash_output", "")
+        sig = "data-race" if ("DATA RACE" in outp or "race detected during execution" in outp) else "crash:TestVerifC17Conc"
+        ctx.add_violation({"kind": "harness-crash", "test": "TestVerifC17Conc", "seed": ctx.seed, "env": env,
+                           "output": outp}, sig=sig)
+
+
 def run(ctx):
     ctx.lean_obligations(["SV.Props.C17"], drivers=["svdriver_c17"])
     quick = ctx.tier == "quick"
     b = ctx.go_test_binary("fusemanager", "h_fusemanager")
     if b:
-        rep = ctx.correspond(b, "TestVerifC17", "svdriver_c17", "c17", env={"VERIF_N": 300 if quick else 4000})
-        # structural tie: the model treats each RPC as atomic; the harness re-derives from the source it
-        # was built against that every RPC method takes fm.lock first and releases it in a defer
-        for m in ("Init", "Mount", "Check", "Unmount", "Close"):
-            ctx.cov["facts_checked"] += 1
-            if not (rep.get("stats") or {}).get("fact-lock-first:" + m):
-                ctx.broken.append("fact:lock-first:Server." + m)
+        ctx.correspond(b, "TestVerifC17", "svdriver_c17", "c17", env={"VERIF_N": 300 if quick else 4000})
         if not quick:
             for i in range(1, 4):
                 ctx.correspond(b, "TestVerifC17", "svdriver_c17", f"c17s{i}",
                                env={"VERIF_N": 2000, "VERIF_SEED": int(ctx.seed) * 1000 + i})
         after_close_pass(ctx, b, 40 if quick else 600)
+    # The model treats every RPC as one atomic step.  That premise is OBSERVED, not read off the source:
+    # a second binary built with -race runs Init / Mount / Check / Unmount / Close concurrently on the real
+    # Server (incl. two overlapping Inits) and evaluates the sequential predicate at every quiescent point.
+    br = ctx.go_test_binary("fusemanager", "h_fusemanager_race", race=True)
+    if br:
+        concurrent_pass(ctx, br, "c17conc", {"VERIF_N": 10 if quick else 60})
+        if not quick:
+            for i in range(1, 3):
+                concurrent_pass(ctx, br, f"c17conc{i}", {"VERIF_N": 40, "VERIF_SEED": int(ctx.seed) * 1000 + i})
         nobs = sum((st or {}).get("obs-record-config-differs-from-owner-config", 0)
                    for st in ctx.cov["stats"].values())
         if nobs:
@@ -78,9 +106,12 @@ def run(ctx):
              "scenarios; the REAL Server (real bolt file, real service.NewFileSystem, recording fake filesystems via "
              "VerifWrapFileSystem) is compared op by op with the Lean model (result class, status, curFs, config, "
              "filesystem call log, store records, fsMap owners, live backend mounts) and the C17 predicate is "
-             "evaluated on the implementation; a history is distinct by its op sequence",
+             "evaluated on the implementation; a history is distinct by its op sequence; plus a concurrent pass under the "
+             "race detector (2 clients with disjoint mountpoints x free-running Inits, two overlapping Inits, Close "
+             "against running clients) with the same predicate at each quiescent point",
         assumptions=[
-            "each RPC is atomic (Init/Close hold fm.lock exclusively; concurrent RPCs on one mountpoint are not modelled)",
+            "each RPC is atomic w.r.t. the manager's state (observed each run by the concurrent -race pass, not "
+            "derived from the source text); concurrent RPCs on ONE mountpoint are not modelled",
             "bolt transactions are atomic and an open database does not fail; records are not corrupted externally",
             "mountpoint keys are non-empty and below bolt's key size limit (storeFuseInfo errors are ignored by Mount)",
             "store invariants are claimed for a Server whose Close() has not run (Init after Close: known finding served-after-close-unrecorded)",
